@@ -46,6 +46,24 @@ _CMP = {
 }
 
 
+class _Break(Exception):
+    pass
+
+
+class _Continue(Exception):
+    pass
+
+
+class Closure:
+    """a lambda or nested function together with its defining environment"""
+
+    def __init__(self, node, env, fi, live_env=None):
+        self.node = node
+        self.env = env
+        self.fi = fi
+        self.live_env = live_env
+
+
 class Obj:
     """An instance of a repo class with slots (FermionicOperator)."""
 
@@ -55,8 +73,9 @@ class Obj:
 
 
 class Evaluator:
-    def __init__(self, prog, isinstance_fn=None, max_steps=20000):
+    def __init__(self, prog, isinstance_fn=None, max_steps=20000, stubs=None):
         self.prog = prog
+        self.stubs = dict(stubs or {})  # dotted name -> python value / callable (abstract model of externals)
         self.isinstance_fn = isinstance_fn or _default_isinstance
         self.steps = 0
         self.max_steps = max_steps
@@ -128,14 +147,100 @@ class Evaluator:
                 self.block(s.orelse, env, fi)
             return
         if isinstance(s, ast.For):
+            broke = False
             for item in self.expr(s.iter, env, fi):
                 self.assign(s.target, item, env, fi)
-                self.block(s.body, env, fi)
-            self.block(s.orelse, env, fi)
+                try:
+                    self.block(s.body, env, fi)
+                except _Break:
+                    broke = True
+                    break
+                except _Continue:
+                    continue
+            if not broke:
+                self.block(s.orelse, env, fi)
             return
         if isinstance(s, ast.Raise):
-            raise Raised(src(s))
-        if isinstance(s, ast.Pass):
+            name = None
+            if s.exc is not None:
+                e = s.exc.func if isinstance(s.exc, ast.Call) else s.exc
+                name = src(e)
+            r = Raised(src(s))
+            r.exc_name = name
+            raise r
+        if isinstance(s, (ast.Pass, ast.Global, ast.Nonlocal, ast.Import, ast.ImportFrom)):
+            return
+        if isinstance(s, ast.Assert):
+            if not self.truth(self.expr(s.test, env, fi)):
+                r = Raised("AssertionError: " + src(s.test))
+                r.exc_name = "AssertionError"
+                raise r
+            return
+        if isinstance(s, ast.Break):
+            raise _Break()
+        if isinstance(s, ast.Continue):
+            raise _Continue()
+        if isinstance(s, ast.While):
+            n = 0
+            while self.truth(self.expr(s.test, env, fi)):
+                n += 1
+                if n > 10000:
+                    raise Unsupported("loop bound exceeded")
+                try:
+                    self.block(s.body, env, fi)
+                except _Break:
+                    break
+                except _Continue:
+                    continue
+            else:
+                self.block(s.orelse, env, fi)
+            return
+        if isinstance(s, ast.Delete):
+            for t in s.targets:
+                if isinstance(t, ast.Subscript):
+                    c = self.expr(t.value, env, fi)
+                    del c[self.expr(t.slice, env, fi)]
+                elif isinstance(t, ast.Name):
+                    env.pop(t.id, None)
+                else:
+                    raise Unsupported("del target")
+            return
+        if isinstance(s, ast.Try):
+            try:
+                self.block(s.body, env, fi)
+            except (_Return, _Break, _Continue):
+                self.block(s.finalbody, env, fi)
+                raise
+            except (Raised, KeyError, IndexError, TypeError, AttributeError, ValueError, ZeroDivisionError) as ex:
+                if isinstance(ex, Unsupported):
+                    raise
+                name = getattr(ex, "exc_name", None) or type(ex).__name__
+                for h in s.handlers:
+                    hn = set()
+                    if h.type is None:
+                        hn = None
+                    else:
+                        for n_ in ast.walk(h.type):
+                            if isinstance(n_, ast.Name):
+                                hn.add(n_.id)
+                            elif isinstance(n_, ast.Attribute):
+                                hn.add(n_.attr)
+                    if hn is None or name in hn or "Exception" in hn:
+                        if h.name:
+                            env[h.name] = ex
+                        try:
+                            self.block(h.body, env, fi)
+                        finally:
+                            self.block(s.finalbody, env, fi)
+                        return
+                self.block(s.finalbody, env, fi)
+                raise
+            else:
+                self.block(s.orelse, env, fi)
+                self.block(s.finalbody, env, fi)
+            return
+        if isinstance(s, (ast.FunctionDef,)):
+            env[s.name] = Closure(s, dict(env), fi, env)
             return
         raise Unsupported(f"statement {type(s).__name__} in {fi.fq}: {src(s)[:60]}")
 
@@ -160,6 +265,17 @@ class Evaluator:
                 raise Unsupported("unpack length")
             for tt, vv in zip(t.elts, vs):
                 self.assign(tt, vv, env, fi)
+        elif isinstance(t, ast.Subscript):
+            c = self.expr(t.value, env, fi)
+            c[self.expr(t.slice, env, fi)] = v
+        elif isinstance(t, ast.Attribute):
+            o = self.expr(t.value, env, fi)
+            if isinstance(o, Obj):
+                o.fields[t.attr] = v
+            else:
+                raise Unsupported(f"attribute store on {type(o).__name__}")
+        elif isinstance(t, ast.Starred):
+            self.assign(t.value, v, env, fi)
         else:
             raise Unsupported(f"assignment target {src(t)} in {fi.fq}")
 
@@ -180,6 +296,8 @@ class Evaluator:
                 return env[e.id]
             if e.id in ("True", "False", "None"):
                 return {"True": True, "False": False, "None": None}[e.id]
+            if e.id in self.stubs:
+                return self.stubs[e.id]
             tgt = self.prog.resolve_name(fi.module, e.id)
             if tgt is not None:
                 return tgt
@@ -250,10 +368,32 @@ class Evaluator:
                 return frozenset(out)
             return out
         if isinstance(e, ast.Attribute):
+            from .loader import dotted as _dotted
+
+            d = _dotted(e)
+            if d is not None and d in self.stubs and d.split(".")[0] not in env:
+                return self.stubs[d]
             v = self.expr(e.value, env, fi)
             return self.getattr(v, e.attr, fi)
         if isinstance(e, ast.Call):
             return self.callexpr(e, env, fi)
+        if isinstance(e, ast.Dict):
+            out = {}
+            for k, v in zip(e.keys, e.values):
+                if k is None:
+                    out.update(self.expr(v, env, fi))
+                else:
+                    out[self.expr(k, env, fi)] = self.expr(v, env, fi)
+            return out
+        if isinstance(e, ast.DictComp):
+            out = {}
+            for kv in self.comp(ast.Tuple(elts=[e.key, e.value], ctx=ast.Load()), e.generators, dict(env), fi):
+                out[kv[0]] = kv[1]
+            return out
+        if isinstance(e, ast.Lambda):
+            return Closure(e, dict(env), fi, env)
+        if isinstance(e, ast.JoinedStr):
+            return "<fstring>"
         if isinstance(e, ast.Yield):
             self.yields.append(None if e.value is None else self.expr(e.value, env, fi))
             return None
@@ -292,6 +432,10 @@ class Evaluator:
     def getattr(self, v, attr, fi):
         from .loader import ClassInfo
 
+        if isinstance(v, Obj) and attr == "__class__":
+            return v.cls
+        if isinstance(v, Obj) and attr == "__new__":
+            return lambda c, *a, **k: Obj(c, {})
         if isinstance(v, Obj):
             m = self.prog.lookup_method(v.cls, attr)
             if m is not None:
@@ -307,8 +451,10 @@ class Evaluator:
                 return ("bound", m, None)
         if hasattr(v, "_attr"):
             return v._attr(attr)
-        if isinstance(v, dict) and attr in ("keys", "values", "items", "get"):
+        if isinstance(v, (dict, list, tuple, set, frozenset, str)) and not attr.startswith("_"):
             return getattr(v, attr)
+        if isinstance(v, Obj) and attr == "__class__":
+            return v.cls
         if v is _itertools and attr in ("product",):
             return getattr(v, attr)
         raise Unsupported(f"attribute .{attr} on {type(v).__name__} in {fi.fq}")
@@ -349,6 +495,34 @@ class Evaluator:
                 return range(*args)
             if n == "zip":
                 return list(zip(*args))
+            if n in ("dict", "list", "set", "sorted", "min", "max", "enumerate", "abs", "int", "str", "repr", "iter", "next",
+                     "frozenset", "hasattr", "print", "id"):
+                import builtins as _b
+
+                if n == "sorted" and "key" in kwargs:
+                    kf = kwargs["key"]
+                    return sorted(args[0], key=lambda x: self.apply(kf, [x], {}, fi),
+                                  reverse=bool(kwargs.get("reverse", False)))
+                if n in ("min", "max") and "key" in kwargs:
+                    kf = kwargs.pop("key")
+                    return getattr(_b, n)(*args, key=lambda x: self.apply(kf, [x], {}, fi), **kwargs)
+                if n == "print":
+                    return None
+                if n == "enumerate":
+                    return list(enumerate(*args))
+                if n == "hasattr":
+                    o, a = args
+                    if isinstance(o, Obj):
+                        return a in o.fields or self.prog.lookup_method(o.cls, a) is not None
+                    return hasattr(o, a)
+                return getattr(_b, n)(*args, **kwargs)
+            if n == "getattr" and len(args) >= 2:
+                try:
+                    return self.getattr(args[0], args[1], fi)
+                except Unsupported:
+                    if len(args) > 2:
+                        return args[2]
+                    raise
             if n == "map":
                 f = args[0]
                 return [self.apply(f, [x], {}, fi) for x in args[1]]
@@ -368,9 +542,42 @@ class Evaluator:
             if init is not None:
                 self.call_init(init, o, args, kwargs)
             return o
-        if callable(f) and getattr(f, "__self__", None) is not None or f is _itertools.product:
+        if isinstance(f, Closure):
+            return self.call_closure(f, args, kwargs)
+        if callable(f) and not isinstance(f, (ClassInfo, FuncInfo)):
             return f(*args, **kwargs)
         raise Unsupported(f"call of {f!r} in {fi.fq}")
+
+    def call_closure(self, c, args, kwargs):
+        node = c.node
+        a = node.args
+        env = dict(c.live_env) if c.live_env is not None else dict(c.env)
+        names = [x.arg for x in a.posonlyargs + a.args]
+        args = list(args)
+        kwargs = dict(kwargs)
+        defaults = {}
+        for p, d in zip(names[len(names) - len(a.defaults):], a.defaults):
+            defaults[p] = d
+        for n in names:
+            if args:
+                env[n] = args.pop(0)
+            elif n in kwargs:
+                env[n] = kwargs.pop(n)
+            elif n in defaults:
+                env[n] = self.expr(defaults[n], c.env, c.fi)
+            else:
+                raise Unsupported("closure arity")
+        if a.vararg:
+            env[a.vararg.arg] = tuple(args)
+        if isinstance(node, ast.Lambda):
+            return self.expr(node.body, env, c.fi)
+        if isinstance(node, ast.FunctionDef):
+            env[node.name] = c
+        try:
+            self.block(node.body, env, c.fi)
+        except _Return as r:
+            return r.value
+        return None
 
     def call_init(self, init, obj, args, kwargs):
         """__init__ consisting only of `self._x = param` assignments."""
@@ -386,6 +593,18 @@ class Evaluator:
         for p, d in init.defaults().items():
             if p not in env:
                 env[p] = self.expr(d, {}, init)
+        plain = all(
+            (isinstance(s, ast.Expr) and isinstance(s.value, ast.Constant)) or (
+                isinstance(s, ast.Assign) and len(s.targets) == 1 and isinstance(s.targets[0], ast.Attribute)
+                and isinstance(s.targets[0].value, ast.Name) and s.targets[0].value.id == node.args.args[0].arg)
+            for s in node.body)
+        if not plain:
+            env[node.args.args[0].arg] = obj
+            try:
+                self.block(node.body, env, init)
+            except _Return:
+                pass
+            return
         for s in node.body:
             if isinstance(s, ast.Expr) and isinstance(s.value, ast.Constant):
                 continue
